@@ -2096,15 +2096,19 @@ impl<'a, SE: extensions::ShellExtensions> WordExpander<'a, SE> {
         replacement: &str,
         match_kind: &SubstringMatchKind,
     ) -> String {
+        // The replacement text is already expanded: it is inserted as it stands, never read as
+        // a regex replacement template (`$0`, `$name`, `$$`).
         match match_kind {
             brush_parser::word::SubstringMatchKind::Prefix
             | brush_parser::word::SubstringMatchKind::Suffix
             | brush_parser::word::SubstringMatchKind::FirstOccurrence => {
-                regex.replace(s, replacement).into_owned()
+                regex.replace(s, fancy_regex::NoExpand(replacement)).into_owned()
             }
 
             brush_parser::word::SubstringMatchKind::Anywhere => {
-                regex.replace_all(s, replacement).into_owned()
+                regex
+                    .replace_all(s, fancy_regex::NoExpand(replacement))
+                    .into_owned()
             }
         }
     }
